@@ -521,14 +521,18 @@ func (c *Client) AllocateIPForSubscriber(ctx context.Context, subscriberID strin
 		return "", fmt.Errorf("allocate from pool: %w", err)
 	}
 
-	// Update subscriber with allocated IP
-	sub.IPv4Addr = ip
-	sub.IPv4Pool = poolID
-	sub.UpdatedAt = time.Now().UTC()
+	// Update a COPY of the subscriber with the allocated IP: sub is the cached record
+	// itself (shared with every reader of the cache), and if the store write fails the
+	// cache must not claim an allocation the store never saw
+	updated := *sub
+	updated.IPv4Addr = ip
+	updated.IPv4Pool = poolID
+	updated.UpdatedAt = time.Now().UTC()
 
-	if err := c.SaveSubscriber(ctx, sub); err != nil {
+	if err := c.SaveSubscriber(ctx, &updated); err != nil {
 		return "", fmt.Errorf("save subscriber: %w", err)
 	}
+	c.cacheSavedSubscriber(sub, &updated)
 
 	c.logger.Info("Allocated IP for subscriber",
 		zap.String("subscriber_id", subscriberID),
@@ -621,10 +625,27 @@ func (c *Client) ReleaseSubscriberIP(ctx context.Context, subscriberID string) e
 		zap.String("ip", sub.IPv4Addr),
 	)
 
-	sub.IPv4Addr = ""
-	sub.UpdatedAt = time.Now().UTC()
+	// As in AllocateIPForSubscriber: the cache follows the store, not the other way round
+	updated := *sub
+	updated.IPv4Addr = ""
+	updated.UpdatedAt = time.Now().UTC()
 
-	return c.SaveSubscriber(ctx, sub)
+	if err := c.SaveSubscriber(ctx, &updated); err != nil {
+		return err
+	}
+	c.cacheSavedSubscriber(sub, &updated)
+	return nil
+}
+
+// cacheSavedSubscriber puts a record that was just written to the store into the cache,
+// unless the cache has moved on from the record the update was derived from (the store's
+// watch has already delivered this or a newer version).
+func (c *Client) cacheSavedSubscriber(old, updated *Subscriber) {
+	c.mu.Lock()
+	if c.subscriberCache[updated.ID] == old {
+		c.subscriberCache[updated.ID] = updated
+	}
+	c.mu.Unlock()
 }
 
 // Helper functions
